@@ -441,6 +441,8 @@ def check_c07(prog, rep, tier, cfg):
         rep.check(ok, R, "wrapper-skips-asm-lines", "format_line searches a wrapping for AsmInstruction lines", instance={"guard": "line_type != AsmInstruction"})
     # C07.g every logical line finished while parsing asm instructions carries the AsmInstruction type
     asm_lines_typed(prog, rep, "C07.g")
+    # C07.j .. and no other line does: a type set for a line that turned out to be empty does not survive finish_logical_line
+    finished_line_type_does_not_survive(prog, rep, "C07.j")
     # C07.h "code outside these regions is still formatted": the child lines of a line that lies entirely inside a region
     import layout as _layout
     _layout.children_of_voided_lines_are_laid_out(prog, rep, "C07.h")
@@ -702,6 +704,49 @@ def asm_ignorer_marks(prog, rep, R, R2):
               "IgnoreAsmIstructions marks only the tokens listed in the AsmInstruction line, not the span first..=last: a conditional directive written inside an instruction (and the excluded branch) "
               "is on a logical line of its own, is formatted (own line, upper-cased) and the instruction line is not emitted byte for byte",
               where="%s:%d" % (per_line.file, per_line.line), instance={"iterated": [x[:160] for _, x in iterated]})
+
+
+def finished_line_type_does_not_survive(prog, rep, R):
+    """finish_logical_line leaves the parser's current line untyped on every way out: either the line is pushed away and a fresh
+    `Unknown` line becomes current, or (nothing to finish) the type set for it is taken back.  Otherwise the AsmInstruction type set
+    before the last finish of an asm block stays on the empty current line, the closing `end;` is collected into it, is marked by
+    the asm ignorer and is emitted with the input's line break and indentation instead of being formatted."""
+    P = "pasfmt_core::defaults::parser::InternalDelphiLogicalLineParser::"
+    LL = "pasfmt_core::defaults::parser::LocalLogicalLine"
+    b = prog.inlined(P + "finish_logical_line", keep=("get_context_level", "consolidate_portability_directives", "set_logical_line_type"))
+    if not rep.check(b is not None, R, "anchor:finish_logical_line", "finish_logical_line not found"):
+        return
+    og = Origins(b)
+
+    def variants(op):
+        out = set()
+        for x in og.of_operand(op):
+            out.add(str(x[3]) if x[0] == "agg" else (str(x[2]) if x[0] == "const" and len(x) > 2 else "?"))
+        if op["k"] == "const" and "enum_variant" in op:
+            out = {op["enum_variant"]}
+        return out
+    resets, other = set(), []
+    for bb, i, s in b.stmts():
+        if s["k"] != "assign":
+            continue
+        if s["dst"]["p"] and s["dst"]["p"][-1].get("k") == "field" and s["dst"]["p"][-1].get("name") == "line_type":
+            vs = variants(s["rv"]["op"]) if s["rv"]["k"] == "use" else {"?"}
+            (resets.add(bb) if vs and all(v.endswith("Unknown") for v in vs) else other.append((bb, sorted(vs))))
+        if s["rv"]["k"] == "aggregate" and norm(s["rv"].get("adt", "")) == LL:
+            k = s["rv"]["fields"].index("line_type") if "line_type" in s["rv"].get("fields", []) else None
+            vs = variants(s["rv"]["ops"][k]) if k is not None else {"?"}
+            (resets.add(bb) if vs and all(v.endswith("Unknown") for v in vs) else other.append((bb, sorted(vs))))
+    for c in b.calls():
+        if (c.target or "") == P + "set_logical_line_type":
+            other.append((c.bb, ["set_logical_line_type"]))
+    rets = b.return_blocks()
+    leak = [r for r in rets if r in b.reach_from(0, avoid=resets, include_start=True) and 0 not in resets]
+    rep.check(not leak and not other, R, "finish-leaves-the-current-line-untyped",
+              "finish_logical_line can return with a line type still set on the parser's current line (%s): the type set for a line that turned out to be empty is inherited by the "
+              "tokens collected next — after an asm block the closing `end;` becomes an AsmInstruction line and is emitted as written"
+              % ("return reachable without `line_type = Unknown` / a fresh Unknown line" if leak else "typed store %s" % other[:2]),
+              where="%s:%d" % (b.file, b.line), instance={"reset_sites": len(resets), "return_blocks": len(rets)})
+    rep.floor(R, "sites in finish_logical_line that leave the current line Unknown", len(resets), 1)
 
 
 def asm_lines_typed(prog, rep, R):
